@@ -412,7 +412,8 @@ End RecNext.
 (* ---------- case runner for nested graphs *)
 Inductive rev_ :=
 | RNew (fwd : bool) (stop : option (list elt)) (withcb : bool)   (* stop = nodes where recursive(node) is False *)
-| FNew (g : gid) (fwd : bool) | RStep (i : nat) | REdit (g : gid) (e : edit).
+| FNew (g : gid) (fwd : bool) | RStep (i : nat) | REdit (g : gid) (e : edit)
+| RRestart (i : nat).    (* iter(it): RecursiveGraphIterator.__iter__ replaces its generator by a new one on the top graph *)
 Inductive riter :=
 | IFlat (g : gid) (fwd : bool) (c : cursor)
 | IRec (fwd : bool) (stop : option (list elt)) (withcb : bool) (rc : rcursor).
@@ -454,6 +455,14 @@ Section RecRun.
     | REdit g ed =>
         let '(s', r) := apply_edit ed (gs g) in
         ((upd gs g s', its), match r with Ok _ => Ok None | Raise x => Raise x end, [])
+    | RRestart i =>
+        match nth_error its i with
+        | None => (m, Raise OtherError, [])
+        | Some (IFlat _ _ _) => (m, Ok None, [])       (* iter(generator) is the generator itself *)
+        | Some (IRec fwd stop withcb _) =>
+            (* the old generator is dropped where it stands (the graphs it holds open are never exited) *)
+            ((gs, set_nth its i (IRec fwd stop withcb (RFresh 0))), Ok None, [])
+        end
     end.
 
   Definition robs := (res (option elt) * list nat * list (list elt))%type.
@@ -465,9 +474,18 @@ Section RecRun.
                 | _, _ => None
                 end
     end.
+  (* The property needs the callbacks balanced and properly nested (ProofsR3: cb_run), not a particular
+     multiplicity: the code happens to call enter/exit twice per subgraph.  The correspondence therefore compares
+     the traces up to repetition of the same call (adjacent duplicates collapsed), so that a clean-up to one call
+     each does not break it; the discipline itself is checked exactly by the oracle on the implementation. *)
+  Fixpoint dedup_adj (l : list nat) : list nat :=
+    match l with
+    | a :: ((b :: _) as t) => if a =? b then dedup_adj t else a :: dedup_adj t
+    | _ => l
+    end.
   Definition robs_eqb (a b : robs) : bool :=
     let '(r1, c1, l1) := a in let '(r2, c2, l2) := b in
-    res_eqb (option_eqb Nat.eqb) r1 r2 && lst_eqb c1 c2 && list_eqb lst_eqb l1 l2.
+    res_eqb (option_eqb Nat.eqb) r1 r2 && lst_eqb (dedup_adj c1) (dedup_adj c2) && list_eqb lst_eqb l1 l2.
 
   Fixpoint ragree_from (ids : list gid) (m : rmstate) (tr : list (rev_ * robs)) : bool :=
     match tr with
